@@ -15,7 +15,7 @@ DEFAULT_WEIGHTS = dict(
     connect=6, end=2, quit=1, join=14, part=5, kick=5, topic=4, invite=4, cmode=14, umode=4,
     nick=5, privmsg=10, notice=6, away=2, oper=2, kill=1, wallops=2, stats=1, die=0.3, squit=0.3,
     names=3, who=3, whois=3, list=2, lusers=2, ison=1, userhost=1, whowas=1, chanlist=2, cquery=1,
-    cap=1.5, half=2.5, half_complete=2.5, half_end=1.5,
+    cap=1.5, half=2.5, half_complete=2.5, half_end=1.5, reuser=1.5,
 )
 
 ENDINGS = ["close", "rst", "halfclose", "midline", "badutf8"]
@@ -172,6 +172,13 @@ class Gen:
             return None
         return ("end", self.r.choice(h), self.r.choice(["close", "rst", "midline"]))
 
+    def g_reuser(self, live):
+        if not live:
+            return None
+        r = self.r
+        return ("act", r.choice(live), {"verb": "REUSER", "what": r.choice(["user", "user", "pass"]),
+                                        "user": r.choice(["forged", "root", "al", "x"]), "real": "Forged Name"})
+
     def g_end(self, live):
         if len(live) < 2:
             return None
@@ -272,6 +279,16 @@ class Gen:
         ch = self.m.chans.get(c)
         members = list(ch.members) if ch else []
         groups = []
+        ar = ch.members.get(self.m.conn[cid]["nick"], set()) if ch else set()
+        if members and ar and r.random() < 0.12:
+            # privilege boundary: a rank letter the actor may not give, followed by a letter it may, in one string
+            refused = [l for l in "qaoh" if not {"q": "q" in ar, "a": bool(ar & set("qa")), "o": bool(ar & set("qao")),
+                                                  "h": bool(ar & set("qao"))}[l]]
+            if refused and (ar & set("qaoh")):
+                l1 = r.choice(refused)
+                l2 = r.choice("lkvb")
+                a2 = {"l": str(r.choice([1, 5, 9])), "k": r.choice(KEYS), "v": r.choice(members), "b": self.mask_for()}[l2]
+                return ("act", cid, {"verb": "MODE", "target": c, "modes": [("+" + l1 + l2, [r.choice(members), a2])]})
         for _ in range(r.choices([1, 2], [8, 2])[0]):
             ms = ""
             args = []
